@@ -1,4 +1,9 @@
 #!/bin/sh
+# Development experiment, not a registered check (nothing in MANIFEST.json calls it).  Prerequisites it assumes:
+#   /tmp/harm/H1      a scratch worktree of /repo        (git -C /repo worktree add --detach /tmp/harm/H1 HEAD)
+#   /tmp/extract_new  the extractor                        (cd /verif/tools/extract && go build -o /tmp/extract_new .)
+#   /tmp/leandev      a private copy of /verif/lean with its own .lake   (rsync -a /verif/lean/ /tmp/leandev/)
+# Remove all three afterwards (git -C /repo worktree remove --force /tmp/harm/H1).
 cd /tmp/harm/H1 && git checkout -q -- .
 cp /tmp/leandev/ArtVerif/Gen/NodeOps.lean /tmp/NodeOps.g; cp /tmp/leandev/ArtVerif/Gen/IterOps.lean /tmp/IterOps.g; cp /tmp/leandev/ArtVerif/Gen/Loops.lean /tmp/Loops.g
 for s in  C02-A C02-A10 C02-A12 C02-A5 C02-A9 C02-B C03-A C03-A10 C03-A2 C03-A3 C03-A4 C03-A6 C03-A7 C03-A8 C03-A9 C04-A C04-A11 C04-A2 C04-A5 C04-A6 C04-A7 C04-A8 C04-A9 C04-B C04-B2 C05-A C05-A10 C05-A12 C05-A2 C05-A3 C05-A4 C05-A6 C05-A7 C05-A8 C05-A9 C05-B C09-A10 C09-A4 C09-A6 C09-A7 C09-A8 C09-B2 C12-A3 C12-B2 C13-A4 C13-B2 C14-A C14-A11 C14-A4 C14-A5 C14-A6 C14-A7 C14-A8 C14-B C14-B2 C15-A12 C15-A6 C15-A9 C16-A11 C16-B2 C17-B2 C18-A C18-A4 C18-A7 C18-B2; do
